@@ -3,6 +3,7 @@ package c10
 
 import (
 	"fmt"
+	"net/http/httptest"
 	"strings"
 	"testing"
 
@@ -160,3 +161,57 @@ func prop(t *rapid.T) {
 }
 
 func TestProp(t *testing.T) { rapid.Check(t, prop) }
+
+// propForwardHistory: histories that contain internal forwards (a handler hands its context to
+// Router.HandleContext for another path) and requests whose handler serves a nested request through the same router.
+// Oracle (history independence, as in TestProp): every request answers exactly as it does as the first request on a
+// freshly built identical router.
+func buildForwardRouter() *rux.Router {
+	r := rux.New()
+	r.GET("/y/{id}", func(c *rux.Context) { c.SetStatus(201); c.WriteString("y:" + c.Param("id")) })
+	r.GET("/x", func(c *rux.Context) {
+		c.Set("k1", "from-x")
+		c.Req.URL.Path = "/y/7"
+		c.Router().HandleContext(c) // internal forward
+	})
+	r.GET("/inner/{id}", func(c *rux.Context) { c.WriteString("inner:" + c.Param("id")) })
+	r.GET("/outer/{id}", func(c *rux.Context) {
+		before := c.Param("id")
+		c.Set("mark", "outer")
+		rec := httptest.NewRecorder()
+		r.ServeHTTP(rec, httptest.NewRequest("GET", "/inner/in", nil))
+		mark, _ := c.Get("mark")
+		c.WriteString(fmt.Sprintf("outer:%s/%s/%v/%s", before, c.Param("id"), mark, rec.Body.String()))
+	})
+	r.GET("/plain/{id}", func(c *rux.Context) { c.WriteString(fmt.Sprintf("plain:%s data=%d errors=%d", c.Param("id"), len(c.Data()), len(c.Errors))) })
+	return r
+}
+
+func propForwardHistory(t *rapid.T) {
+	ev.Case()
+	r := buildForwardRouter()
+	paths := []string{"/x", "/y/1", "/outer/o", "/plain/p", "/x", "/outer/q", "/nope"}
+	n := rapid.IntRange(2, 8).Draw(t, "nreq")
+	var hist []string
+	forwarded := false
+	for i := 0; i < n; i++ {
+		p := rapid.SampledFrom(paths).Draw(t, "path")
+		hist = append(hist, p)
+		ev.Eval()
+		got, want := httptest.NewRecorder(), httptest.NewRecorder()
+		r.ServeHTTP(got, httptest.NewRequest("GET", p, nil))
+		buildForwardRouter().ServeHTTP(want, httptest.NewRequest("GET", p, nil))
+		if got.Code != want.Code || got.Body.String() != want.Body.String() {
+			t.Fatalf("history %v: request %d (GET %s) answers %d %q, as first request on a fresh router %d %q", hist, i, p, got.Code, got.Body.String(), want.Code, want.Body.String())
+		}
+		if forwarded && strings.HasPrefix(p, "/outer") {
+			ev.Class("nested-request-after-a-forwarded-request")
+			ev.NonTrivial(fmt.Sprint(hist), func() string { return fmt.Sprint(hist) })
+		}
+		if p == "/x" {
+			forwarded = true
+		}
+	}
+}
+
+func TestPropForwardHistory(t *testing.T) { rapid.Check(t, propForwardHistory) }
